@@ -3,7 +3,7 @@
    Definitions only. *)
 From Coq Require Import PrimFloat ZArith List Bool.
 Import ListNotations.
-Require Import PyBase Solver SolverF SolveAll Tracer TracerSolve.
+Require Import PyBase Solver SolverF SolveAll Tracer TracerSolve TracerNames.
 Open Scope Z_scope.
 
 Definition ftrace := trace float.
@@ -11,9 +11,12 @@ Definition ftraces := traces float.
 
 (* one call on the instance: which solve method, its options, the trace= and reset= keywords *)
 (* (labels are the integers of the span; the span is a Python list, searched with list.index = SolveAll.locate_index) *)
-Inductive entry : Type := ESolveT (t : Z) | ESolvePeriod (lab : Z) | ESolve (start end_ : option Z).
+Inductive entry : Type :=
+| ESolveT (t : Z) | ESolvePeriod (lab : Z) | ESolve (start end_ : option Z)
+| ETraceT (t : Z) (label : tlabel) | ETracePeriod (lab : Z) (label : tlabel).     (* the public snapshot methods, called directly *)
 Record call := mkCall { k_entry : entry; k_opts : fopts; k_targ : targ; k_reset : bool }.
-Inductive cres : Type := RBool (o : outcome bool) | RSolve (o : outcome (sresult Z)).
+Inductive cres : Type := RBool (o : outcome bool) | RSolve (o : outcome (sresult Z)) | RUnit (o : outcome unit).
+Definition unit_res (e : option exn) : cres := match e with None => RUnit (Ret tt) | Some x => RUnit (Raise x) end.
 
 Definition f_traced_solve_t (sc : scripts) (cfg : tcfg) (a : targ) (reset : bool) (d : mdesc) (o : fopts) (t : Z)
            (s : fstate) (tr : ftraces) : (fstate * ftraces) * outcome bool :=
@@ -36,6 +39,11 @@ Definition f_call (sc : scripts) (cfg : tcfg) (span : list Z) (d : mdesc) (c : c
   | ESolve start end_ =>
       let '(st, o) := traced_solve_all float PrimFloat.sub PrimFloat.abs PrimFloat.ltb fisfin fzero cfg (k_targ c) (k_reset c)
                                        ev be af Z (locate_index span) d (k_opts c) span start end_ s tr in (st, RSolve o)
+  | ETraceT t label =>
+      let '(tr', e) := trace_t float cfg t label (k_targ c) (k_reset c) (vals_of s) tr in ((s, tr'), unit_res e)
+  | ETracePeriod lab label =>
+      let '(tr', e) := trace_period_M float cfg (k_targ c) (k_reset c) Z (locate_index span) lab label (vals_of s) tr in
+      ((s, tr'), unit_res e)
   end.
 
 (* the same call without the keywords (the untraced twin): Solver.solve_t_M, SolveAll.solve_period_M, SolveAll.solve_M *)
@@ -52,6 +60,7 @@ Definition f_plain_call (sc : scripts) (span : list Z) (d : mdesc) (c : call) (s
   | ESolve start end_ =>
       let '(s', o) := solve_M float PrimFloat.sub PrimFloat.abs PrimFloat.ltb fisfin fzero ev be af Z (locate_index span) d (k_opts c) span start end_ s in
       (s', RSolve o)
+  | ETraceT _ _ | ETracePeriod _ _ => (s, RUnit (Ret tt))       (* the twin is left alone: a snapshot method is not a solve *)
   end.
 
 (* ---- comparison with the implementation's observation ---- *)
@@ -59,6 +68,7 @@ Definition label_eqb (a b : tlabel) : bool :=
   match a, b with
   | LStart, LStart | LBefore, LBefore | LEnd, LEnd => true
   | LIter j, LIter k => Nat.eqb j k
+  | LUser j, LUser k => Nat.eqb j k
   | _, _ => false
   end.
 Definition trace_eqb (a b : ftrace) : bool :=
@@ -77,11 +87,24 @@ Definition cres_eqb (a b : cres) : bool :=
   match a, b with
   | RBool x, RBool y => out_eqb x y
   | RSolve x, RSolve y => outl_eqb x y
+  | RUnit (Ret _), RUnit (Ret _) => true
+  | RUnit (Raise x), RUnit (Raise y) => exn_eqb x y
+  | _, _ => false
+  end.
+
+(* Trace.to_dataframe() of every period, as observed after the call *)
+Definition frame := outcome (list tlabel * list nat * list (list float)).
+Definition frame_eqb (a b : frame) : bool :=
+  match a, b with
+  | Ret (i, n, v), Ret (i', n', v') =>
+      list_eqb label_eqb i i' && list_eqb Nat.eqb n n' && list_eqb (list_eqb feq_bits) v v'
+  | Raise x, Raise y => exn_eqb x y
   | _, _ => false
   end.
 
 (* what the implementation showed after one call: traced instance (state, traces, result), untraced twin *)
-Record xstep := mkX { x_state : fstate; x_traces : ftraces; x_res : cres; x_twin : fstate; x_twin_res : cres }.
+Record xstep := mkX { x_state : fstate; x_traces : ftraces; x_res : cres; x_twin : fstate; x_twin_res : cres;
+                      x_frames : list frame }.
 
 Record tcase17 := mkCase17 {
   c_scripts : scripts; c_cfg : tcfg; c_span : list Z; c_desc : mdesc;
@@ -97,6 +120,7 @@ Fixpoint run_check (sc : scripts) (cfg : tcfg) (span : list Z) (d : mdesc) (cs :
       let '((s', tr'), r) := f_call sc cfg span d c s tr in
       let '(u', ru) := f_plain_call sc span d c u in
       state_eqb s' (x_state x) && list_eqb trace_eqb tr' (x_traces x) && cres_eqb r (x_res x)
+      && list_eqb frame_eqb (map (to_dataframe float) tr') (x_frames x)
       && state_eqb u' (x_twin x) && cres_eqb ru (x_twin_res x)
       && run_check sc cfg span d cs' xs' s' tr' u'
   | _, _ => false
@@ -113,3 +137,26 @@ Fixpoint run_calls (sc : scripts) (cfg : tcfg) (span : list Z) (d : mdesc) (cs :
 Definition check_tcase17 (c : tcase17) : bool :=
   run_check (c_scripts c) (c_cfg c) (c_span c) (c_desc c) (c_calls c) (c_expect c) (c_state0 c)
             (repeat (empty_trace float) (length (status (c_state0 c)))) (c_state0 c).
+
+(* ---- which list object a freshly created Trace keeps as `names` (TracerNames.v): the observed identity flags
+   (is it the model's list / the class's TRACE_VARIABLES / the object passed as trace=) and the observed names of every
+   Trace the call created, against the heap model ---- *)
+Record acase := mkACase {
+  a_env : nenv; a_spec : nspec; a_heap : nheap; a_flags : list (bool * bool * bool); a_names : list (list nat) }.
+Definition flags_eqb (x y : bool * bool * bool) : bool :=
+  let '(a, b, c) := x in let '(a', b', c') := y in Bool.eqb a a' && Bool.eqb b b' && Bool.eqb c c'.
+Definition check_acase (c : acase) : bool :=
+  let '(h', r) := trace_names (a_env c) (a_spec c) (a_heap c) in
+  forallb (flags_eqb (alias_flags (a_env c) (a_spec c) r)) (a_flags c)
+  && forallb (list_eqb Nat.eqb (deref h' r)) (a_names c).
+
+(* ---- TracerMixin.__init__: the observed outcome (class of the exception, or the new index and the number of Traces,
+   all empty) against TracerSolve.tracer_init ---- *)
+Record icase := mkICase { i_index : list nat; i_trace_name : nat; i_n : nat; i_obs : outcome (list nat * nat) }.
+Definition check_icase (c : icase) : bool :=
+  match tracer_init float (i_index c) (i_trace_name c) (i_n c), i_obs c with
+  | Raise x, Raise y => exn_eqb x y
+  | Ret (ix, tr), Ret (ix', k) =>
+      list_eqb Nat.eqb ix ix' && Nat.eqb (length tr) k && forallb (is_empty float) tr
+  | _, _ => false
+  end.
